@@ -380,6 +380,128 @@ mod refhayson {
     }
 }
 
+// ---- seeded random well-formed values (shared by enum:random-values and enum:random-spellings)
+mod randgen {
+    use libhaystack::val::{Column, Date, DateTime, Dict, Grid, Time, Value};
+    pub struct Rng(pub u64);
+    impl Rng { pub fn seeded(seed: u64) -> Rng { Rng(0x9E3779B97F4A7C15 ^ (seed.wrapping_mul(0x2545F4914F6CDD1D)).wrapping_add(1)) }
+        pub fn next(&mut self) -> u64 { self.0 ^= self.0 << 13; self.0 ^= self.0 >> 7; self.0 ^= self.0 << 17; self.0 }
+        pub fn below(&mut self, n: usize) -> usize { (self.next() % n as u64) as usize }
+        pub fn pick<'a, T>(&mut self, xs: &'a [T]) -> &'a T { &xs[self.below(xs.len())] } }
+    pub const IDS: [&str; 8] = ["a", "b", "dis", "siteRef", "x1", "camelCase", "with_underscore", "n"];
+    pub const STRS: [&str; 15] = ["", "a", "x,y", "line1\nline2", "q\"uote", "back\\slash", "$dollar", "\u{e9}\u{20ac}", "\u{1F600}", "tab\there", " lead", "<<>>", "[1,2]", "{a:1}", "ver:\"3.0\""];
+    pub const UNITS: [&str; 8] = ["kg", "%", "kW", "\u{b0}F", "/h", "$", "m\u{b2}", "s"];
+    pub const ZONES: [(&str, &str); 6] = [("2021-06-19T19:48:23-04:00", "New_York"), ("2021-01-15T12:00:00-03:30", "St_Johns"), ("2021-06-19T19:48:23.5+05:30", "Kolkata"), ("2021-01-19T19:48:23Z", "London"), ("2021-06-19T19:48:23.123Z", "UTC"), ("1999-12-31T23:59:59+09:00", "Tokyo")];
+    pub fn scalar(rng: &mut Rng, strs: &[&str], units: &[&str], zones: &[(&str, &str)]) -> Value {
+        match rng.below(17) {
+            0 => Value::Marker, 1 => Value::Na, 2 => Value::Remove, 3 => Value::make_bool(rng.below(2) == 0),
+            4 => { let mags = [0.0, -0.0, 1.0, -1.0, 0.5, 1e-7, 5e-324, 1e21, 123456.789, -9876543210.5, 1.7976931348623157e308, 2.2250738585072014e-308, 0.1 + 0.2, 1e15 + 0.5];
+                   let x = *rng.pick(&mags) * if rng.below(2) == 0 { 1.0 } else { (rng.below(1000) as f64 + 1.0) / 7.0 };
+                   if rng.below(3) == 0 { match libhaystack::units::get_unit(*rng.pick(units)) { Some(u) if x.is_finite() => Value::make_number_unit(x, u), _ => Value::make_number(x) } } else { Value::make_number(x) } }
+            5 => Value::make_number(*rng.pick(&[f64::NAN, f64::INFINITY, f64::NEG_INFINITY])),
+            6 | 7 => Value::make_str(*rng.pick(strs)),
+            8 => { let id = *rng.pick(&["a", "a.b:c-d~e_f", "p:demo:r:1eeb11ef-fa6b895d", "X9"]); if rng.below(2) == 0 { Value::make_ref(id) } else { Value::make_ref_with_dis(id, *rng.pick(strs)) } }
+            9 => Value::make_symbol(*rng.pick(&["site", "a.b-c:d", "hot-water", "x1"])),
+            10 => Value::make_uri(*rng.pick(&["http://x/y?z=1#f", "a`b", "a\\b", "/a b/\u{e9}", "[x]@y&z=1;2", ""])),
+            11 => Value::make_date(Date::from_ymd(1 + rng.below(9998) as i32, 1 + rng.below(12) as u32, 1 + rng.below(28) as u32).unwrap()),
+            12 => Value::make_time(Time::from_hms_milli(rng.below(24) as u32, rng.below(60) as u32, rng.below(60) as u32, *rng.pick(&[0u32, 5, 120, 999])).unwrap()),
+            13 => { let (iso, tz) = *rng.pick(zones); Value::make_datetime(if tz == "UTC" { DateTime::parse_from_rfc3339(iso).unwrap() } else { DateTime::parse_from_rfc3339_with_timezone(iso, tz).unwrap() }) }
+            14 => Value::make_coord_from(*rng.pick(&[0.0, -0.0, 45.5, -89.999999, 90.0, 1e-7]), *rng.pick(&[0.0, 180.0, -179.5, 23.25, 1e-9])),
+            15 => Value::make_xstr_from(*rng.pick(&["Bin", "Span", "Foo_1", "X"]), *rng.pick(strs)),
+            _ => Value::Null,
+        }
+    }
+    pub fn dict(rng: &mut Rng, depth: usize, ids: &[&str], strs: &[&str], units: &[&str], zones: &[(&str, &str)]) -> Dict {
+        let mut d = Dict::new(); for _ in 0..rng.below(5) { let k = *rng.pick(ids); let v = value(rng, depth + 1, ids, strs, units, zones); d.insert(k.into(), v); } d }
+    pub fn value(rng: &mut Rng, depth: usize, ids: &[&str], strs: &[&str], units: &[&str], zones: &[(&str, &str)]) -> Value {
+        if depth >= 3 || rng.below(10) < 6 { return scalar(rng, strs, units, zones); }
+        match rng.below(3) {
+            0 => Value::make_list((0..rng.below(4)).map(|_| value(rng, depth + 1, ids, strs, units, zones)).collect()),
+            1 => Value::make_dict(dict(rng, depth, ids, strs, units, zones)),
+            _ => { let ncols = 1 + rng.below(4); let cols: Vec<Column> = (0..ncols).map(|i| Column { name: format!("c{i}"), meta: if rng.below(3) == 0 { let m = dict(rng, 2, ids, strs, units, zones); if m.is_empty() { None } else { Some(m) } } else { None } }).collect();
+                let rows: Vec<Dict> = (0..rng.below(4)).map(|_| { let mut r = Dict::new(); for c in &cols { if rng.below(3) != 0 { r.insert(c.name.clone(), value(rng, depth + 1, ids, strs, units, zones)); } } r }).collect();
+                let meta = if rng.below(2) == 0 { let m = dict(rng, 2, ids, strs, units, zones); if m.is_empty() { None } else { Some(m) } } else { None };
+                Value::make_grid(Grid { meta, columns: cols, rows, ver: "3.0".into() }) }
+        }
+    }
+}
+
+
+// ---- an independent *writer* for Zinc that picks, at random, among the spellings the grammar allows for a value (number forms, \uXXXX
+//      escapes, separators with and without spaces, trailing commas, marker tags with and without :M, LF / CRLF line endings)
+mod refwrite {
+    use super::randgen::Rng;
+    use libhaystack::val::{Dict, Grid, Value};
+    fn qstr(s: &str, q: char, rng: &mut Rng) -> String {
+        let mut o = String::new(); o.push(q);
+        for c in s.chars() {
+            let esc_u = (c as u32) < 0x10000 && rng.below(6) == 0;
+            match c {
+                _ if esc_u => o.push_str(&if rng.below(2) == 0 { format!("\\u{:04x}", c as u32) } else { format!("\\u{:04X}", c as u32) }),
+                '"' if q == '"' => o.push_str("\\\""), '`' if q == '`' => o.push_str("\\`"), '\\' => o.push_str("\\\\"),
+                '\n' => o.push_str("\\n"), '\r' => o.push_str("\\r"), '\t' => o.push_str(if rng.below(2) == 0 { "\\t" } else { "\\u0009" }), '$' if q == '"' => o.push_str("\\$"),
+                c if (c as u32) < 0x20 => o.push_str(&format!("\\u{:04x}", c as u32)),
+                c => o.push(c),
+            }
+        }
+        o.push(q); o
+    }
+    fn num(x: f64, rng: &mut Rng) -> String {
+        if x.is_nan() { return "NaN".into(); } if x == f64::INFINITY { return "INF".into(); } if x == f64::NEG_INFINITY { return "-INF".into(); }
+        match rng.below(3) { 0 => format!("{x:e}"), 1 => format!("{x:E}"), _ => format!("{x}") }
+    }
+    fn tags(d: &Dict, seps: &[&str], rng: &mut Rng, depth: usize) -> String {
+        let mut o = String::new();
+        for (i, (k, v)) in d.iter().enumerate() {
+            if i > 0 { o.push_str(seps[rng.below(seps.len())]); }
+            o.push_str(k);
+            if !matches!(v, Value::Marker) || rng.below(3) == 0 { o.push(':'); o.push_str(&value(v, rng, depth + 1)); }
+        }
+        o
+    }
+    pub fn value(v: &Value, rng: &mut Rng, depth: usize) -> String {
+        use libhaystack::encoding::zinc::encode::ToZinc;
+        match v {
+            Value::Null => "N".into(), Value::Marker => "M".into(), Value::Remove => "R".into(), Value::Na => "NA".into(),
+            Value::Bool(b) => if b.value { "T".into() } else { "F".into() },
+            Value::Number(n) => { let mut t = num(n.value, rng); if let Some(u) = n.unit { t.push_str(u.symbol()); } t }
+            Value::Str(s) => qstr(&s.value, '"', rng),
+            Value::Uri(u) => { let mut o = String::from("`"); for c in u.value.chars() { match c { '`' => o.push_str("\\`"), '\\' => o.push_str("\\\\"), c => o.push(c) } } o.push('`'); o }
+            Value::Ref(r) => match &r.dis { Some(d) => format!("@{} {}", r.value, qstr(d, '"', rng)), None => format!("@{}", r.value) },
+            Value::Symbol(s) => format!("^{}", s.value),
+            Value::XStr(x) => format!("{}({})", x.r#type, qstr(&x.value, '"', rng)),
+            Value::Coord(c) => format!("C({},{})", c.lat, c.long),
+            // dates, times and timestamps have one spelling each (fraction digits aside): the library's own text
+            Value::Date(_) | Value::Time(_) | Value::DateTime(_) => v.to_zinc_string().unwrap(),
+            Value::List(l) => { let mut o = String::from("["); if rng.below(3) == 0 { o.push(' '); }
+                for (i, e) in l.iter().enumerate() { if i > 0 { o.push_str(["," , ", ", " ,"][rng.below(3)]); } o.push_str(&value(e, rng, depth + 1)); }
+                if !l.is_empty() && rng.below(3) == 0 { o.push(','); } if rng.below(3) == 0 { o.push(' '); } o.push(']'); o }
+            Value::Dict(d) => format!("{{{}}}", tags(d, &[" ", ",", ", "], rng, depth)),
+            Value::Grid(g) => format!("<<\n{}>>", grid(g, rng, depth + 1, true)),
+        }
+    }
+    pub fn grid(g: &Grid, rng: &mut Rng, depth: usize, nested: bool) -> String {
+        let nl = if !nested && rng.below(2) == 0 { "\r\n" } else { "\n" };
+        let mut o = format!("ver:{}", qstr(&g.ver, '"', rng));
+        if let Some(m) = &g.meta { if !m.is_empty() { o.push(' '); o.push_str(&tags(m, &[" "], rng, depth)); } }
+        o.push_str(nl);
+        if g.columns.is_empty() { o.push_str("empty"); o.push_str(nl); }
+        else {
+            for (i, c) in g.columns.iter().enumerate() { if i > 0 { o.push(','); } o.push_str(&c.name);
+                if let Some(m) = &c.meta { if !m.is_empty() { o.push(' '); o.push_str(&tags(m, &[" "], rng, depth)); } } }
+            o.push_str(nl);
+            for r in &g.rows {
+                for (i, c) in g.columns.iter().enumerate() { if i > 0 { o.push(','); }
+                    match r.get(&c.name) { Some(v) => o.push_str(&value(v, rng, depth + 1)), None => if g.columns.len() == 1 { o.push('N') } } }
+                o.push_str(nl);
+            }
+        }
+        if !nested && rng.below(2) == 0 { o.push_str(nl); }
+        o
+    }
+    pub fn top(v: &Value, rng: &mut Rng) -> String { match v { Value::Grid(g) => grid(g, rng, 0, false), other => value(other, rng, 0) } }
+}
+
 fn main() {
     let args: Vec<String> = std::env::args().collect();
     let fam = args.get(1).map(|s| s.as_str()).unwrap_or("");
@@ -1249,50 +1371,11 @@ fn main() {
             use libhaystack::val::{Column, Date, DateTime, Dict, Grid, Time};
             let seed: u64 = std::env::var("VERIF_SEED").ok().and_then(|s| s.parse().ok()).unwrap_or(0);
             let count: usize = args.get(2).and_then(|s| s.parse().ok()).unwrap_or(1500);
-            struct Rng(u64);
-            impl Rng { fn next(&mut self) -> u64 { self.0 ^= self.0 << 13; self.0 ^= self.0 >> 7; self.0 ^= self.0 << 17; self.0 }
-                fn below(&mut self, n: usize) -> usize { (self.next() % n as u64) as usize }
-                fn pick<'a, T>(&mut self, xs: &'a [T]) -> &'a T { &xs[self.below(xs.len())] } }
-            let mut rng = Rng(0x9E3779B97F4A7C15 ^ (seed.wrapping_mul(0x2545F4914F6CDD1D)).wrapping_add(1));
-            let ids = ["a", "b", "dis", "siteRef", "x1", "camelCase", "with_underscore", "n"];
-            let strs = ["", "a", "x,y", "line1\nline2", "q\"uote", "back\\slash", "$dollar", "\u{e9}\u{20ac}", "\u{1F600}", "tab\there", " lead", "<<>>", "[1,2]", "{a:1}", "ver:\"3.0\""];
-            let units = ["kg", "%", "kW", "\u{b0}F", "/h", "$", "m\u{b2}", "s"];
-            let zones = [("2021-06-19T19:48:23-04:00", "New_York"), ("2021-01-15T12:00:00-03:30", "St_Johns"), ("2021-06-19T19:48:23.5+05:30", "Kolkata"), ("2021-01-19T19:48:23Z", "London"), ("2021-06-19T19:48:23.123Z", "UTC"), ("1999-12-31T23:59:59+09:00", "Tokyo")];
-            fn scalar(rng: &mut Rng, strs: &[&str], units: &[&str], zones: &[(&str, &str)]) -> Value {
-                match rng.below(17) {
-                    0 => Value::Marker, 1 => Value::Na, 2 => Value::Remove, 3 => Value::make_bool(rng.below(2) == 0),
-                    4 => { let mags = [0.0, -0.0, 1.0, -1.0, 0.5, 1e-7, 5e-324, 1e21, 123456.789, -9876543210.5, 1.7976931348623157e308, 2.2250738585072014e-308, 0.1 + 0.2, 1e15 + 0.5];
-                           let x = *rng.pick(&mags) * if rng.below(2) == 0 { 1.0 } else { (rng.below(1000) as f64 + 1.0) / 7.0 };
-                           if rng.below(3) == 0 { match libhaystack::units::get_unit(*rng.pick(units)) { Some(u) if x.is_finite() => Value::make_number_unit(x, u), _ => Value::make_number(x) } } else { Value::make_number(x) } }
-                    5 => Value::make_number(*rng.pick(&[f64::NAN, f64::INFINITY, f64::NEG_INFINITY])),
-                    6 | 7 => Value::make_str(*rng.pick(strs)),
-                    8 => { let id = *rng.pick(&["a", "a.b:c-d~e_f", "p:demo:r:1eeb11ef-fa6b895d", "X9"]); if rng.below(2) == 0 { Value::make_ref(id) } else { Value::make_ref_with_dis(id, *rng.pick(strs)) } }
-                    9 => Value::make_symbol(*rng.pick(&["site", "a.b-c:d", "hot-water", "x1"])),
-                    10 => Value::make_uri(*rng.pick(&["http://x/y?z=1#f", "a`b", "a\\b", "/a b/\u{e9}", "[x]@y&z=1;2", ""])),
-                    11 => Value::make_date(Date::from_ymd(1 + rng.below(9998) as i32, 1 + rng.below(12) as u32, 1 + rng.below(28) as u32).unwrap()),
-                    12 => Value::make_time(Time::from_hms_milli(rng.below(24) as u32, rng.below(60) as u32, rng.below(60) as u32, *rng.pick(&[0u32, 5, 120, 999])).unwrap()),
-                    13 => { let (iso, tz) = *rng.pick(zones); Value::make_datetime(if tz == "UTC" { DateTime::parse_from_rfc3339(iso).unwrap() } else { DateTime::parse_from_rfc3339_with_timezone(iso, tz).unwrap() }) }
-                    14 => Value::make_coord_from(*rng.pick(&[0.0, -0.0, 45.5, -89.999999, 90.0, 1e-7]), *rng.pick(&[0.0, 180.0, -179.5, 23.25, 1e-9])),
-                    15 => Value::make_xstr_from(*rng.pick(&["Bin", "Span", "Foo_1", "X"]), *rng.pick(strs)),
-                    _ => Value::Null,
-                }
-            }
-            fn dict(rng: &mut Rng, depth: usize, ids: &[&str], strs: &[&str], units: &[&str], zones: &[(&str, &str)]) -> Dict {
-                let mut d = Dict::new(); for _ in 0..rng.below(5) { let k = *rng.pick(ids); let v = value(rng, depth + 1, ids, strs, units, zones); d.insert(k.into(), v); } d }
-            fn value(rng: &mut Rng, depth: usize, ids: &[&str], strs: &[&str], units: &[&str], zones: &[(&str, &str)]) -> Value {
-                if depth >= 3 || rng.below(10) < 6 { return scalar(rng, strs, units, zones); }
-                match rng.below(3) {
-                    0 => Value::make_list((0..rng.below(4)).map(|_| value(rng, depth + 1, ids, strs, units, zones)).collect()),
-                    1 => Value::make_dict(dict(rng, depth, ids, strs, units, zones)),
-                    _ => { let ncols = 1 + rng.below(4); let cols: Vec<Column> = (0..ncols).map(|i| Column { name: format!("c{i}"), meta: if rng.below(3) == 0 { let m = dict(rng, 2, ids, strs, units, zones); if m.is_empty() { None } else { Some(m) } } else { None } }).collect();
-                        let rows: Vec<Dict> = (0..rng.below(4)).map(|_| { let mut r = Dict::new(); for c in &cols { if rng.below(3) != 0 { r.insert(c.name.clone(), value(rng, depth + 1, ids, strs, units, zones)); } } r }).collect();
-                        let meta = if rng.below(2) == 0 { let m = dict(rng, 2, ids, strs, units, zones); if m.is_empty() { None } else { Some(m) } } else { None };
-                        Value::make_grid(Grid { meta, columns: cols, rows, ver: "3.0".into() }) }
-                }
-            }
+            use randgen::*;
+            let mut rng = Rng::seeded(seed);
             let dbg = |v: &Value| format!("{:?}", norm(v));
             for i in 0..count {
-                let v = value(&mut rng, 0, &ids, &strs, &units, &zones);
+                let v = value(&mut rng, 0, &IDS, &STRS, &UNITS, &ZONES);
                 let fail = |what: &str, text: &str, got: String| { println!("RESULT enum:random-values seed={seed} value #{i} {v:?}: {what}: text={text:?} got={got}"); std::process::exit(3); };
                 let z = match v.to_zinc_string() { Ok(z) => z, Err(e) => { fail("cannot be written as Zinc", "", e.to_string()); unreachable!() } };
                 match from_str(&z) { Ok(b) if dbg(&b) == dbg(&v) => { if let Ok(z2) = b.to_zinc_string() { if z2 != z { fail("Zinc re-encoding differs", &z, z2); } } } other => fail("Zinc round trip", &z, format!("{other:?}")) }
@@ -1302,6 +1385,24 @@ fn main() {
                 match serde_json::from_str::<serde_json::Value>(&j).map_err(|e| e.to_string()).and_then(|t| refhayson::decode(&t)) { Ok(b) if dbg(&b) == dbg(&v) => {} other => fail("the reference Hayson reader disagrees", &j, format!("{other:?}")) }
             }
             println!("RESULT enum:random-values seed={seed}: {count} random well-formed values survive Zinc and Hayson round trips, both reference readers and one re-encoding");
+        }
+        // ---- C04 reader side, thorough and quick: seeded random values spelled by the independent reference writer in a random legal
+        //      spelling must be decoded by libhaystack to the value they denote
+        "enum:random-spellings" => {
+            use randgen::*;
+            let seed: u64 = std::env::var("VERIF_SEED").ok().and_then(|s| s.parse().ok()).unwrap_or(0);
+            let count: usize = args.get(2).and_then(|s| s.parse().ok()).unwrap_or(1500);
+            let mut rng = Rng::seeded(seed ^ 0x5555);
+            for i in 0..count {
+                let v = value(&mut rng, 0, &IDS, &STRS, &UNITS, &ZONES);
+                let text = refwrite::top(&v, &mut rng);
+                let got = from_str(&text);
+                if !matches!(&got, Ok(b) if format!("{:?}", norm(b)) == format!("{:?}", norm(&v))) {
+                    println!("RESULT enum:random-spellings seed={seed} value #{i} {v:?}: the legal spelling {text:?} is decoded as {got:?}");
+                    std::process::exit(3);
+                }
+            }
+            println!("RESULT enum:random-spellings seed={seed}: {count} random values in random legal spellings are decoded to the value they denote");
         }
         // ---- C09 enumerator (evaluation half): `id *== @ref` over resolvers whose refs form chains and cycles of several shapes must
         //      terminate with the right answer; a run that does not come back is reported as a hang by the caller's watchdog
